@@ -76,9 +76,60 @@ def obligations(ctx, tier):
             out.append(core.f_row(K, PROP, tr(A, "core::convert::From", ["bool"], "from"), call(tr(A, "cast::CastFrom", ["bool"], "cast_from"), P(0))))
             if not sg:
                 out.append(core.f_row(K, PROP, tr(A, "core::convert::From", ["char"], "from"), call(tr(A, "cast::CastFrom", ["char"], "cast_from"), P(0))))
+        out += btryfrom_rows(K)
         for fid, di in sorted(F.by_fid.items()):
             d = F.defs[di]
             if d.get("trait") not in ("core::convert::TryFrom", "BTryFrom") or di not in F.bodies or d["kind"] != "AssocFn":
                 continue
             out += core.p_minus(K, PROP, fid, set(), aud)
+    return out
+
+
+DBITS = {"BUint": 64, "BInt": 64, "BUintD32": 32, "BIntD32": 32, "BUintD16": 16, "BIntD16": 16, "BUintD8": 8, "BIntD8": 8}
+
+
+def btryfrom_rows(K):
+    """BTryFrom between two bnum types: Ok exactly when the source value is representable in the target.
+
+    The impl is `<Target<M> as BTryFrom<Source<N>>>`: the source has N digits (the world's digit count), the target M."""
+    import re
+    out = []
+    F = K.F
+    for Tn in ADTS:
+        for Sn in ADTS:
+            fid = "<%s<M> as BTryFrom<%s<N>>>::try_from" % (Tn, Sn)
+            if F.lookup(fid) is None:
+                out.append(core.missing(PROP, "G", K, fid))
+                continue
+            sb, tb = DBITS[Sn], DBITS[Tn]
+            # (N, M) pairs: source narrower, equal width, wider than the target
+            pairs = set()
+            for tw in (64, 128, 192):
+                for sw in (64, 128, 192, 256):
+                    if sw % sb == 0 and tw % tb == 0:
+                        pairs.add((sw // sb, tw // tb))
+            pairs = sorted(pairs)
+
+            def mk(kind, Sn=Sn, Tn=Tn):
+                def env_fn(W):
+                    sw, tw = W.bits(Sn), W.bits(Tn, W.m)
+                    s_lo, s_hi = (-(1 << (sw - 1)), (1 << (sw - 1)) - 1) if Sn in SIGNED else (0, (1 << sw) - 1)
+                    t_lo, t_hi = (-(1 << (tw - 1)), (1 << (tw - 1)) - 1) if Tn in SIGNED else (0, (1 << tw) - 1)
+                    v = {"zero": 0, "one": 1, "neg1": -1, "t_hi": t_hi, "t_hi1": t_hi + 1, "t_lo": t_lo, "t_lo1": t_lo - 1,
+                         "s_hi": s_hi, "s_lo": s_lo, "t_top": 1 << (tw - 1), "t_topm1": (1 << (tw - 1)) - 1, "mid": 12345}[kind]
+                    v = min(max(v, s_lo), s_hi)
+                    return {0: W.wrap(Sn, v)}
+
+                def exp_fn(W, env):
+                    tw = W.bits(Tn, W.m)
+                    t_lo, t_hi = (-(1 << (tw - 1)), (1 << (tw - 1)) - 1) if Tn in SIGNED else (0, (1 << tw) - 1)
+                    return ("is_ok",) if t_lo <= env[0].v <= t_hi else ("is_err",)
+                return (kind, env_fn, exp_fn)
+            reps = [mk(k) for k in ("zero", "one", "neg1", "t_hi", "t_hi1", "t_lo", "t_lo1", "s_hi", "s_lo", "t_top", "t_topm1", "mid")]
+            old = core.WORLDS_FOR
+            core.WORLDS_FOR = (lambda pairs: lambda f: pairs)(pairs)
+            try:
+                out += core.g_row(K, PROP, fid, reps)
+            finally:
+                core.WORLDS_FOR = old
     return out
